@@ -43,6 +43,6 @@ MANIFEST_ENTRY = dict(
     category='other',
     engine='bounded',
     technique='sidecar contracts on the real functions: wiring / closed-form obligations from the AST discharged by z3 and the ring normaliser where the functions are within reach; bounded run-time contracts with independent oracles for the rest (never counted as proved)',
-    text='Discharged from the real source on every run (all values, stated small shapes): split_list_by_lengths, projection_inbreeding (subsets with multiplicity), probability_enough_individuals_covered (binomial tail), projection_matrix rows (F=0 / F!=0), probability_of_no_call_1D_GATK_multisample closed form + definedness (no division by a quantity that can vanish), part_inbreeding_probability (multinomial x beta-binomial weights), memo keys. Bounded run-time contracts (never counted as proved): Partition enumeration exhaustively for n<=10, row-stochastic matrices, no-call bounds, deep-coverage limit, simulated regime.',
+    text='Discharged from the real source on every run (all values, stated small shapes): split_list_by_lengths, projection_inbreeding (subsets with multiplicity), probability_enough_individuals_covered (binomial tail), projection_matrix rows (F=0 / F!=0), probability_of_no_call_1D_GATK_multisample closed form + definedness (no division by a quantity that can vanish), part_inbreeding_probability (multinomial x beta-binomial weights), memo keys, per-locus permutation call site. Bounded run-time contracts (never counted as proved): Partition enumeration exhaustively for n<=10, row-stochastic matrices, no-call bounds, deep-coverage limit, simulated regime.',
     note='bounded: see coverage.bounded.drivers[].bound in the evidence file for the exact domain of every driver',
 )
